@@ -284,13 +284,14 @@ func (f *Fixture) Alphabet() []Item {
 // Outcome is what a callback does when it is given the right credential (a wrong
 // credential is always rejected).
 type Outcome struct {
-	Kind      ref.OutKind
-	Next      int     // OutPartial: index of the callback set to continue with
-	Src       *string // OutAccept: source-address critical option of the returned Permissions (nil = none)
-	NilPerms  bool    // OutAccept: return nil Permissions
-	Banner    bool    // OutReject: wrap the error in a BannerError
-	WithPerms bool    // OutPartial: (illegally) return Permissions as well
-	SamePerms bool    // VerifiedPublicKeyCallback OutAccept: hand back the Permissions it was given
+	Kind       ref.OutKind
+	Next       int     // OutPartial: index of the callback set to continue with
+	Src        *string // OutAccept: source-address critical option of the returned Permissions (nil = none)
+	NilPerms   bool    // OutAccept: return nil Permissions
+	Banner     bool    // OutReject: wrap the error in a BannerError
+	BannerOnly bool    // OutReject: a BannerError with a message and a nil Err (still an error, i.e. a rejection)
+	WithPerms  bool    // OutPartial: (illegally) return Permissions as well
+	SamePerms  bool    // VerifiedPublicKeyCallback OutAccept: hand back the Permissions it was given
 }
 
 func Accept() *Outcome            { return &Outcome{Kind: ref.OutAccept} }
@@ -298,6 +299,7 @@ func AcceptNil() *Outcome         { return &Outcome{Kind: ref.OutAccept, NilPerm
 func AcceptSrc(s string) *Outcome { return &Outcome{Kind: ref.OutAccept, Src: &s} }
 func Reject() *Outcome            { return &Outcome{Kind: ref.OutReject} }
 func RejectBanner() *Outcome      { return &Outcome{Kind: ref.OutReject, Banner: true} }
+func RejectBannerOnly() *Outcome  { return &Outcome{Kind: ref.OutReject, BannerOnly: true} }
 func Partial(next int) *Outcome   { return &Outcome{Kind: ref.OutPartial, Next: next} }
 func PartialBad(next int) *Outcome {
 	return &Outcome{Kind: ref.OutPartial, Next: next, WithPerms: true}
@@ -400,6 +402,9 @@ func (s *Session) realize(o *Outcome, iv *ref.Invocation, permsIn *ssh.Permissio
 		err = errRejected
 		if o.Banner {
 			err = &ssh.BannerError{Err: errRejected, Message: "verif banner\n"}
+		}
+		if o.BannerOnly {
+			err = &ssh.BannerError{Message: "verif banner only\n"}
 		}
 	}
 	iv.Out = o.Kind
